@@ -10,7 +10,9 @@ def main():
     from . import floor_mc
     cfgs = floor_mc.design_family(0)[:3]
     stage = C.stage_specs(C.scratch('setup'), {'KernelBodies.tla': bodies_module(),
-                                               'FloorCfgs.tla': floor_mc.render_cfgs(cfgs)})
+                                               'FloorCfgs.tla': floor_mc.render_cfgs(cfgs),
+                                               'RecCfg.tla': ('---- MODULE RecCfg ----\nEXTENDS Integers\nCyc == <<4, 4, 0>>\n'
+                                                              'Cap == <<-1, 1, 1>>\nH == 40\nBudget == -1\n====\n')})
     bad = 0
     mods = sorted(f for f in os.listdir(stage) if f.endswith('.tla'))
     for m in mods:
